@@ -53,6 +53,7 @@ def cases(tier, seed):
             if fi == "depthlin" and ba != "flat":
                 fi = "generic" if sto != "f8" else "linear"
             out.append(dict(imax=imax, jmax=jmax, N=N, bathy=ba, stretch=st, mask=ma, storage=sto, field=fi))
+    out.append(dict(mode="wide"))  # grid coordinates in the thousands: positions need all the digits of a double
     # drop duplicates created by the depthlin substitution
     seen, uniq = set(), []
     for c in out:
@@ -125,7 +126,55 @@ def particles(w, i0, i1, j0, j1):
     return P
 
 
+def run_wide(case):
+    """A grid 4200 cells wide, positions off the dyadic lattice: exactness on a linear field (relative 1e-9) on the whole grid and on a far subgrid."""
+    from ladim.ROMS import Forcing, Grid
+    from ladim.state import State
+    from ladim.timekeeper import TimeKeeper
+
+    imax, jmax, N = 4200, 6, 2
+    w = world.World(imax=imax, jmax=jmax, N=N, h=np.full((jmax, imax), 40.0), mask=np.ones((jmax, imax)), dx=800.0, **STRETCH[0])
+    fr = w.zeros()
+    ku = np.arange(N)[:, None, None]
+    ju, iu = np.meshgrid(np.arange(jmax), np.arange(imax - 1) + 0.5, indexing="ij")
+    jv, iv = np.meshgrid(np.arange(jmax - 1) + 0.5, np.arange(imax), indexing="ij")
+    fr["u"] = 0.125 * ku + 0.25 * iu[None] - 0.125 * ju[None]
+    fr["v"] = -0.25 * ku + 0.0625 * iv[None] + 0.5 * jv[None]
+    d = util.scratch("c02w")
+    f = w.write_file(d / "f_0.nc", [dict(t=S0, **fr), dict(t=S0 + 10 * DT, **fr)], storage="f8")
+    viols, n = [], 0
+    for sg in (None, [2900, 4199, 1, 5], [1, 1700, 2, 5]):
+        lim = sg or [1, imax - 1, 1, jmax - 1]
+        P = [(x, y, z) for x in (3.3, 1500.3, 1697.9, 3000.7, 4100.3, 4197.1) for y in (2.8, 3.3) for z in (5.0, 20.0)
+             if lim[0] + 0.5 < x < lim[1] - 1.5 and lim[2] + 0.5 < y < lim[3] - 1.5]
+        try:
+            grid = Grid(f, subgrid=sg)
+            st = State()
+            st.append(X=np.array([p[0] for p in P]), Y=np.array([p[1] for p in P]), Z=np.array([p[2] for p in P]))
+            tk = TimeKeeper(start=world.iso(S0), stop=world.iso(S0 + 5 * DT), dt=DT)
+            force = Forcing(dict(time=tk, grid=grid, state=st), str(d / "f_*.nc"))
+            tk.update()
+            force.update()
+            res = [(np.array(force.variables["u"]), np.array(force.variables["v"]))] + [tuple(np.array(a) for a in force.velocity(st.X, st.Y, st.Z, fractional_step=fs)) for fs in (0.0, 0.5)]
+            force.close()
+        except BaseException as e:
+            viols.append(util.viol("wide:exception", f"subgrid={sg}: {e!r}", case))
+            continue
+        for k, (x, y, z) in enumerate(P):
+            ic, jc = int(np.round(x)), int(np.round(y))
+            klo, khi, a = refinterp.level_pair(w.z_r[:, jc, ic], z)
+            kk = a * klo + (1 - a) * khi
+            eu, ev = 0.125 * kk + 0.25 * x - 0.125 * y, -0.25 * kk + 0.0625 * x + 0.5 * y
+            for gu, gv in res:
+                n += 1
+                if (abs(gu[k] - eu) > 1e-9 * max(1, abs(eu)) or abs(gv[k] - ev) > 1e-9 * max(1, abs(ev))) and not viols:
+                    viols.append(util.viol("wide:not-exact-on-linear", f"grid 4200 cells wide, subgrid={sg}, at {(x, y, z)}: ({gu[k]!r}, {gv[k]!r}) expected ({eu!r}, {ev!r})", case))
+    return util.result(evals=n, nontrivial=n, viol=viols, outcomes=["wide"], states=n, transitions=n, sample=dict(case))
+
+
 def run_case(case):
+    if case.get("mode") == "wide":
+        return run_wide(case)
     from ladim.ROMS import Forcing, Grid
     from ladim.state import State
     from ladim.timekeeper import TimeKeeper
